@@ -57,6 +57,8 @@ func Main(args []string) int {
 			return checkC02()
 		case "C10prom":
 			return checkC10prom()
+		case "C05conc":
+			return checkC05conc()
 		}
 	case "replay":
 		if len(args) < 2 {
@@ -69,7 +71,7 @@ func Main(args []string) int {
 		}
 		return racePass(args[1])
 	}
-	fmt.Fprintln(os.Stderr, "usage: ed check C15|C10conc|C05mon|C18atom|C03conc|C13conc|C14conc|C14ctl|C01conc|C06conc|C12conc|C17conc|C16conc|C04conc|C02conc|C10prom | ed replay <file> | ed racepass <id> | ed worker")
+	fmt.Fprintln(os.Stderr, "usage: ed check C15|C10conc|C05mon|C18atom|C03conc|C13conc|C14conc|C14ctl|C01conc|C06conc|C12conc|C17conc|C16conc|C04conc|C02conc|C10prom|C05conc | ed replay <file> | ed racepass <id> | ed worker")
 	return 2
 }
 
@@ -857,6 +859,15 @@ func checkSimple(prop, harness, evName string) int {
 		if tier == "thorough" {
 			levels = append(levels, Bounds{3, 0, 3}, Bounds{4, 0, 4})
 		}
+	case "C05conc":
+		for _, cf := range c05ConcConfigs(tier) {
+			cf := cf
+			jobs = append(jobs, Job{Harness: harness, C18: &cf})
+		}
+		levels = []Bounds{{0, 0, 0}, {1, 0, 1}, {2, 0, 2}, {3, 0, 3}}
+		if tier == "thorough" {
+			levels = append(levels, Bounds{4, 0, 4}, Bounds{5, 0, 5})
+		}
 	case "C10prom":
 		for _, cf := range c10PromConfigs(tier) {
 			cf := cf
@@ -1020,7 +1031,7 @@ func simpleAssumptions(h string) []string {
 			"oracle inside the stub data path: when the FIRST replica call of a write/sync/unmap operation arrives at a replica, the number of RW entries of the controller's replica list at that moment (not the cached RWReplicaCount) must be >= RF/2+1; the other calls of the same MultiWriterAt fan-out belong to the same admission; an operation refused as read-only must not have reached any replica",
 			"calls are attributed to operations by payload byte (write), offset (unmap), and by being the only sync of the configuration; failing calls fail before being applied on the chosen replica",
 		}
-	case "C18atom", "C13conc", "C04conc", "C02conc", "C10prom":
+	case "C18atom", "C13conc", "C04conc", "C02conc", "C10prom", "C05conc":
 		return []string{
 			"real controller.Controller (whole package under the scheduler: Controller.RWMutex, MultiWriterAt/replicator fan-out goroutines and wait groups, Controller.monitoring goroutines) with real *remote.Remote backends whose REST and data calls go in-process to engine E-B's model replica nodes (bound to the real replica by E-B's conformance check)",
 			"each execution builds its own cluster inside the scheduler (register x2, start, add+sync+verify) without exploring that prefix; then the calls run concurrently; map iterations of package controller are in key order",
